@@ -147,7 +147,7 @@ Proof.
                        (WSend (s_conn sstate w) (Transport.s_tls sstate w) d :: s_log sstate w))).
   fold s. rewrite Hreact, Hs. cbn [app].
   match goal with |- context [runS _ ?w0] => set (w' := w0) end.
-  assert (Hok : reply_ok r) by (unfold r, reply_ok, mk_reply; cbn; auto).
+  assert (Hok : reply_ok r) by (unfold r; apply reply_ok_mk; exact I).
   assert (Hall : Forall (fun x : (bytes * bool) * enc => name_ok (fst (fst x))) (combine es encs)).
   { apply Forall_forall. intros [[n b] e0] Hi. cbn [fst]. apply in_combine_l in Hi.
     unfold es, listing_entries in Hi. apply in_map_iff in Hi as ([n' c'] & Heq & Hin'). inversion Heq; subst.
@@ -233,7 +233,7 @@ Proof.
                        (WSend (s_conn sstate w) (Transport.s_tls sstate w) d :: s_log sstate w))).
   fold s. rewrite Hreact, Hs. cbn [app].
   match goal with |- context [runS _ ?w0] => set (w' := w0) end.
-  assert (Hok : reply_ok r) by (unfold r, reply_ok, mk_reply; cbn; auto).
+  assert (Hok : reply_ok r) by (unfold r; apply reply_ok_mk; exact I).
   assert (Heol : eol = CRLF \/ (eol = [] /\ sent_quoted enc content = false /\ ends_with CRLF content = true)).
   { unfold eol. destruct (cfg_eol_after_literal (s_cfg s2)); [left; reflexivity|].
     unfold sent_quoted. destruct enc.
@@ -307,7 +307,7 @@ Proof.
   fold s. rewrite Hreact, Hs. cbn [app].
   match goal with |- context [runS _ ?w0] => set (w' := w0) end.
   assert (Hok : reply_ok r).
-  { unfold r, reply_ok, mk_reply. cbn [r_code]. apply code_ok_known. cbn. tauto. }
+  { unfold r. apply reply_ok_mk. apply code_ok_known. cbn. tauto. }
   rewrite (read_response_reply sstate srv_react srv_connect srv_tls r f None true [] 0 st _ w' [] Hok)
     by (unfold w'; cbn; rewrite app_nil_r; reflexivity).
   unfold r at 1. cbn [r_status mk_reply]. change (is_ok (Some (bs "NO"))) with false. cbv iota.
@@ -356,7 +356,7 @@ Proof.
                        (WSend (s_conn sstate w) (Transport.s_tls sstate w) d :: s_log sstate w))).
   fold s. rewrite Hreact, Hs. cbn [app].
   match goal with |- context [runS _ ?w0] => set (w' := w0) end.
-  assert (Hok : reply_ok r) by (unfold r, reply_ok, mk_reply; cbn; auto).
+  assert (Hok : reply_ok r) by (unfold r; apply reply_ok_mk; exact I).
   rewrite (read_response_reply sstate srv_react srv_connect srv_tls r f None false [] 0 st _ w' [] Hok)
     by (unfold w'; cbn; rewrite app_nil_r; reflexivity).
   unfold r at 1. cbn [r_status mk_reply]. reflexivity.
@@ -422,7 +422,7 @@ Proof.
             | _ => mk_reply StOK None [] c
             end) in *.
   assert (Hok : reply_ok r).
-  { subst r. destruct a as [[x|]|[x|]| | |]; try contradiction; unfold reply_ok, mk_reply; cbn; auto. }
+  { subst r. destruct a as [[x|]|[x|]| | |]; try contradiction; apply reply_ok_mk; auto. }
   unfold simple_cmd, send_command. cbn [send_all].
   change (runS (Send ?d ?p) w)
     with (let '(s', reply) := srv_react (s_peer sstate w) d in
